@@ -1001,11 +1001,15 @@ impl Router {
             self.scheduler.track(id, request);
             self.scheduler.reschedule(id, ScheduleReason::NewFilter);
             debug_assert!(self.scheduler.check_tracker_duplicates(id).is_none())
+        } else {
+            // re-subscription: the existing request keeps its place in the log and is
+            // served with the QoS granted now (it waits either in the tracker or in the log's waiters)
+            let qos = filter.qos as u8;
+            self.scheduler.update_qos(id, filter_path, qos);
+            self.datalog.update_waiter_qos(id, filter_idx, filter_path, qos);
         }
 
-        // TODO: figure out how we can update existing DataRequest
-        // helpful in re-subscriptions and forwarding retained messages on
-        // every subscribe
+        // TODO: figure out how we can forward retained messages on every subscribe
 
         let meter = &mut self.ibufs.get_mut(id).unwrap().meter;
         meter.register_subscription(filter_path.clone());
